@@ -1,6 +1,7 @@
 package main
 
 import (
+	"encoding/json"
 	"fmt"
 	"github.com/jf-tech/omniparser"
 	"sync"
@@ -49,10 +50,29 @@ func c14Drive(args []string) int {
 		return 3
 	}
 	sum := newSummary()
+	// "the results they would obtain running alone": for the items named in the file of the fifth argument, the transcript
+	// of a process that ran nothing but that item; for the others, the serial run at the start of this process
+	alone := map[string][]string{}
+	if len(args) > 4 {
+		readLines(args[4], func(line []byte) error {
+			var x struct {
+				Item    string   `json:"item"`
+				Results []string `json:"results"`
+			}
+			if json.Unmarshal(line, &x) == nil && x.Item != "" {
+				alone[x.Item] = x.Results
+			}
+			return nil
+		})
+	}
 	golden := make([][]string, len(items))
 	for i, it := range items {
 		golden[i] = fpAll(runItem(it, nil), "full")
+		if a, ok := alone[it.Name]; ok {
+			golden[i] = a
+		}
 	}
+	sum.inc("goldens_from_a_process_of_their_own", len(alone))
 	var events []interface{}
 	for i, it := range items {
 		events = append(events, M{"ev": "golden", "tr": i + 1, "item": it.Name, "results": golden[i]})
@@ -78,16 +98,24 @@ func c14Drive(args []string) int {
 		mkFresh := func() bool {
 			byText := map[string]omniparser.Schema{}
 			for i, it := range items {
-				sch := byText[string(it.Schema)]
+				key := string(it.Schema)
+				if it.mk != nil {
+					key = it.Name + "\x00" + key // an item with an Extension of its own never shares a Schema
+				}
+				sch := byText[key]
 				if sch == nil {
 					var e error
 					var p string
-					sch, e, p = newSchema(it.Schema)
+					if it.mk != nil {
+						sch, e = it.mk()
+					} else {
+						sch, e, p = newSchema(it.Schema)
+					}
 					if e != nil || p != "" {
 						fmt.Println("error: schema", it.Name, e, p)
 						return false
 					}
-					byText[string(it.Schema)] = sch
+					byText[key] = sch
 				}
 				fresh[i] = &corpusItem{Name: it.Name, Format: it.Format, Schema: it.Schema, Input: it.Input, Ext: it.Ext, sch: sch}
 			}
@@ -163,4 +191,23 @@ func c14Drive(args []string) int {
 	return 0
 }
 
-func init() { cmds["c14-drive"] = c14Drive }
+// c13-names: the names of the multi-run corpus
+func c13Names(args []string) int {
+	items, err := c13Corpus()
+	if err != nil {
+		fmt.Println("error:", err)
+		return 3
+	}
+	var names []string
+	for _, it := range items {
+		names = append(names, it.Name)
+	}
+	emit(M{"kind": "names", "names": names})
+	flush()
+	return 0
+}
+
+func init() {
+	cmds["c14-drive"] = c14Drive
+	cmds["c13-names"] = c13Names
+}
